@@ -60,6 +60,7 @@ fn main() {
         "C07" => run_property(&props::c07::C07, &args),
         "C08" => run_property(&props::c08::C08, &args),
         "C09" => run_property(&props::c09::C09, &args),
+        "C10" => run_property(&props::c10::C10, &args),
         "C11" => run_property(&props::c11::C11, &args),
         "C20" => run_property(&props::c20::C20, &args),
         x => {
